@@ -159,16 +159,55 @@ package res
 //@ # ---- tag replacement: both entry points make exactly one pass of replace over the pattern (simultaneous substitution:
 //@ # a replacement value is never scanned for tags again). nrepl counts the passes. replace itself is used through its contract.
 //@ ghostvar nrepl int
+//@ # replace: one scan that records the tags to replace (offset o, end e, value v), then one assembly pass. Proved: every index,
+//@ # slice and allocation is in range for every pattern and every replacer (the recorded tags are disjoint and ordered, so the
+//@ # result length pl + sum(len(v) - (e - o)) is not negative and every copy lands inside the result). rcov[k] / rlv[k]:
+//@ # characters covered by / total replacement length of the first k recorded tags.
+//@ ghostvar rcov arr
+//@ ghostvar rlv arr
+//@ # replacement values come from client code; assumed shorter than 2^20 bytes, patterns shorter than 2^30 (T3)
+//@ func callback.replacerCB(self ref, tag string) (v string, ok bool)
+//@   ensures len(v) <= 1048576
 //@ func (p Pattern) replace(replacer func(tag string) (string, bool)) (res Pattern)
-//@   nobody
-//@   modifies ghost.nrepl, alloc
+//@   requires replacer != nil && len(p) <= 1073741824
+//@   modifies ghost.nrepl, ghost.rcov, ghost.rlv, alloc, bytes
+//@   callback replacer replacerCB
+//@   ghost entry :: set nrepl = nrepl + 1
+//@   ghost entry :: set rcov = zeroarr()
+//@   ghost entry :: set rlv = zeroarr()
+//@   ghost store rs#1 after :: set rcov = store(rcov, len(rs), rcov[len(rs)-1] + rs[len(rs)-1].e - rs[len(rs)-1].o)
+//@   ghost store rs#1 after :: set rlv = store(rlv, len(rs), rlv[len(rs)-1] + len(rs[len(rs)-1].v))
 //@   ensures nrepl == old(nrepl) + 1
+//@   loop 1 invariant A: 0 <= pi && pi <= pl && pl == len(p) && nrepl == old(nrepl) + 1
+//@   loop 1 invariant F: ref(rs) == 0 || ref(rs) >= old(nextRef())
+//@   loop 1 invariant B: forall(j, 0, len(rs), 0 <= rs[j].o && rs[j].o < rs[j].e && rs[j].e <= pi && len(rs[j].v) <= 1048576)
+//@   loop 1 invariant C: forall(j, 0, len(rs) - 1, rs[j].e <= rs[j+1].o)
+//@   loop 1 invariant D: rcov[0] == 0 && rlv[0] == 0 && forall(j, 0, len(rs), rcov[j+1] == rcov[j] + rs[j].e - rs[j].o && rlv[j+1] == rlv[j] + len(rs[j].v))
+//@   loop 1 invariant E: forall(k, 0, len(rs), rcov[len(rs)] - rcov[k] <= pi - rs[k].o)
+//@   loop 1 invariant G: forall(j, 0, len(rs) + 1, 0 <= rlv[j] && rlv[j] <= j * 1048576 && j <= rcov[j] && rcov[j] <= ite(j == len(rs), pi, rs[j].o))
+//@   loop 1 invariant H: forall(k, 0, len(rs) + 1, rlv[k] <= rlv[len(rs)])
+//@   loop 2 invariant loopentry(pi) <= pi && pi <= pl && pl == len(p)
+//@   loop 3 invariant facts: forall(j, 0, len(rs), 0 <= rs[j].o && rs[j].o < rs[j].e && rs[j].e <= pl && len(rs[j].v) <= 1048576) && forall(j, 0, len(rs) - 1, rs[j].e <= rs[j+1].o) && rcov[0] == 0 && rlv[0] == 0 && forall(j, 0, len(rs), rcov[j+1] == rcov[j] + rs[j].e - rs[j].o && rlv[j+1] == rlv[j] + len(rs[j].v)) && forall(k, 0, len(rs), rcov[len(rs)] - rcov[k] <= pl - rs[k].o) && forall(j, 0, len(rs) + 1, 0 <= rlv[j] && rlv[j] <= j * 1048576 && j <= rcov[j] && rcov[j] <= ite(j == len(rs), pl, rs[j].o)) && forall(k, 0, len(rs) + 1, rlv[k] <= rlv[len(rs)]) && pl == len(p) && pl <= 1073741824 && len(rs) >= 1
+//@   loop 3 invariant -1 <= rangeindex && rangeindex < len(rs) + 0 && nl == pl + rlv[rangeindex+1] - rcov[rangeindex+1]
+//@   loop 4 invariant facts: forall(j, 0, len(rs), 0 <= rs[j].o && rs[j].o < rs[j].e && rs[j].e <= pl && len(rs[j].v) <= 1048576) && forall(j, 0, len(rs) - 1, rs[j].e <= rs[j+1].o) && rcov[0] == 0 && rlv[0] == 0 && forall(j, 0, len(rs), rcov[j+1] == rcov[j] + rs[j].e - rs[j].o && rlv[j+1] == rlv[j] + len(rs[j].v)) && forall(k, 0, len(rs), rcov[len(rs)] - rcov[k] <= pl - rs[k].o) && forall(j, 0, len(rs) + 1, 0 <= rlv[j] && rlv[j] <= j * 1048576 && j <= rcov[j] && rcov[j] <= ite(j == len(rs), pl, rs[j].o)) && forall(k, 0, len(rs) + 1, rlv[k] <= rlv[len(rs)]) && pl == len(p) && pl <= 1073741824 && len(rs) >= 1 && nl == pl + rlv[len(rs)] - rcov[len(rs)]
+//@   loop 4 invariant -1 <= rangeindex__2 && rangeindex__2 < len(rs) + 0 && len(result) == nl && pi == ite(rangeindex__2 < 0, 0, rs[rangeindex__2].e) && o == pi - rcov[rangeindex__2+1] + rlv[rangeindex__2+1] && 0 <= o
+//@ # the replacers the two entry points pass: a map lookup / a comparison with the one tag (sizes: T3)
+//@ func Pattern.ReplaceTags$1(t string) (v string, ok bool)
+//@   requires sizes: forallint(k, imp(mapHasId(m, k), len(mapValId(m, k)) <= 1048576))
+//@   ensures len(v) <= 1048576
+//@ func Pattern.ReplaceTag$1(t string) (v string, ok bool)
+//@   requires sizes: len(value) <= 1048576
+//@   ensures len(v) <= 1048576 && ok == (tag == t) && imp(ok, same(v, value))
 //@ func (p Pattern) ReplaceTags(m map[string]string) (res Pattern)
-//@   modifies ghost.nrepl, alloc
+//@   requires sizes: len(p) <= 1073741824 && forallint(k, imp(mapHasId(m, k), len(mapValId(m, k)) <= 1048576))
+//@   modifies ghost.nrepl, ghost.rcov, ghost.rlv, alloc, bytes
 //@   ensures empty: imp(len(m) == 0, same(res, p) && nrepl == old(nrepl))
 //@   ensures onepass: imp(len(m) != 0, nrepl == old(nrepl) + 1)
 //@ func (p Pattern) ReplaceTag(tag string, value string) (res Pattern)
-//@   modifies ghost.nrepl, alloc
+//@   requires sizes: len(p) <= 1073741824 && len(value) <= 1048576
+//@   modifies ghost.nrepl, ghost.rcov, ghost.rlv, alloc, bytes
+//@   # the tag and the value the replacer compares with and returns are the arguments as given (a tag name may itself start with '$')
+//@   ghost call Pattern.replace#1 before :: assert as.given: same(tag, old(tag)) && same(value, old(value))
 //@   ensures onepass: nrepl == old(nrepl) + 1
 //@ func mergePattern(a string, b string) (res string)
 //@   ensures ea: imp(len(a) == 0, res == b)
@@ -443,6 +482,17 @@ package res
 //@       || (r.rtype == "call" && !(r.method == "new" && r.h.New != nil) && r.h.Call[r.method] == nil && r.h.Call["*"] == nil)
 //@       || (r.rtype == "auth" && r.h.Auth[r.method] == nil && r.h.Auth["*"] == nil)), ninvoked == old(ninvoked))
 //@
+//@ # ---- decoding helpers (C05): the whole stored params / token text is handed to the decoder, nothing else; a failure is a panic (answered by executeHandler)
+//@ func (r *Request) ParseParams(p interface{})
+//@   requires r != nil
+//@   modifies all
+//@   may_panic
+//@   ghost call Unmarshal#1 before :: assert whole: same(arg_data, r.params) && same(arg_v, p)
+//@ func (r *Request) ParseToken(t interface{})
+//@   requires r != nil
+//@   modifies all
+//@   may_panic
+//@   ghost call Unmarshal#1 before :: assert whole: same(arg_data, r.token) && same(arg_v, t)
 //@ # ---- accessors (C05: the handler sees the fields exactly as stored)
 //@ func (r *Request) Type() (res string)
 //@   requires r != nil
@@ -749,23 +799,34 @@ package res
 //@
 //@ # ================================================================ protocol conformance (C07)
 //@ props C07
+//@ # lstate: the service state read by the entry point
+//@ ghostvar lstate int
 //@ func (s *Service) TokenEvent(cid string, token interface{})
 //@   thread any
 //@   requires s != nil && !isNil(s.nc)
-//@   modifies ghost.trn, ghost.trk, ghost.tra, ghost.pubn, alloc
+//@   # the event is only attempted when the state that was read is `started` (anything else is refused: C03)
+//@   ghost call LoadInt32#1 after :: set lstate = arg_res
+//@   ghost call Service.event#1 before :: assert started.only: lstate == stateStarted
+//@   modifies ghost.trn, ghost.trk, ghost.tra, ghost.pubn, ghost.lstate, alloc
 //@   callback onError benign
 //@   may_panic
 //@   ensures_on_panic !(len(cid) > 0 && forall(k, 0, len(cid), partch(cid[k])))
 //@ func (s *Service) TokenEventWithID(cid string, tokenID string, token interface{})
 //@   thread any
 //@   requires s != nil && !isNil(s.nc)
-//@   modifies ghost.trn, ghost.trk, ghost.tra, ghost.pubn, alloc
+//@   # the event is only attempted when the state that was read is `started` (anything else is refused: C03)
+//@   ghost call LoadInt32#1 after :: set lstate = arg_res
+//@   ghost call Service.event#1 before :: assert started.only: lstate == stateStarted
+//@   modifies ghost.trn, ghost.trk, ghost.tra, ghost.pubn, ghost.lstate, alloc
 //@   callback onError benign
 //@   ensures_on_panic !(len(cid) > 0 && forall(k, 0, len(cid), partch(cid[k])))
 //@ func (s *Service) TokenReset(subject string, tokenID []string)
 //@   thread any
 //@   requires s != nil && !isNil(s.nc)
-//@   modifies ghost.trn, ghost.trk, ghost.tra, ghost.pubn, alloc
+//@   # the event is only attempted when the state that was read is `started` (anything else is refused: C03)
+//@   ghost call LoadInt32#1 after :: set lstate = arg_res
+//@   ghost call Service.event#1 before :: assert started.only: lstate == stateStarted
+//@   modifies ghost.trn, ghost.trk, ghost.tra, ghost.pubn, ghost.lstate, alloc
 //@   callback onError benign
 //@   ensures_on_panic len(subject) == 0 || !(pvalid(subject) && forall(k, 0, len(subject), !wildAt(subject, k)))
 //@ func (r *Request) Timeout(d time.Duration)
@@ -1008,12 +1069,17 @@ package res
 //@       && imp(len(resources) == 0, ref(unbox(arg_data, "res.resetEvent").Resources) == 0) && imp(len(access) > 0, same(unbox(arg_data, "res.resetEvent").Access, access))
 //@       && imp(len(access) == 0, ref(unbox(arg_data, "res.resetEvent").Access) == 0)
 //@   ensures silent: imp(len(resources) == 0 && len(access) == 0, trn == old(trn))
+//@ ghostvar rsdef bool
 //@ func (s *Service) ResetAll()
 //@   requires s != nil && !isNil(s.nc) && muxOK(s.Mux)
 //@   modifies all
 //@   ensures frame: muxOK(s.Mux) && s.Mux == old(s.Mux) && same(s.nc, old(s.nc)) && same(s.onServe, old(s.onServe))
 //@   callback onError benign
 //@   ghost call Service.reset#1 before :: assert owned: same(arg_resources, s.resetResources) && same(arg_access, s.resetAccess)
+//@   # the default ownership is resolved (again) before the lists are announced: they may have been set back to nil since Serve
+//@   ghost entry :: set rsdef = false
+//@   ghost call Service.setDefaultOwnership#1 after :: set rsdef = true
+//@   ghost call Service.reset#1 before :: assert resolved: rsdef
 //@
 //@ # ================================================================ query events (C15)
 //@ props C15
@@ -1068,6 +1134,27 @@ package res
 //@ # qcalls: invocations of a query callback with a request; qnil: invocations with nil
 //@ ghostvar qcalls int
 //@ ghostvar qnil int
+//@ # ---- the events accumulated for the answer of a query request: each call adds exactly one event, of its kind, after
+//@ # those already there (an empty change adds none); an invalid call adds nothing
+//@ func (qr *queryRequest) ChangeEvent(ev map[string]interface{})
+//@   requires qr != nil
+//@   modifies res.queryRequest.events, alloc, elems:res.queryRequest.events
+//@   may_panic
+//@   ensures empty: imp(len(ev) == 0, same(qr.events, old(qr.events)))
+//@   ensures one: imp(len(ev) != 0, len(qr.events) == old(len(qr.events)) + 1 && qr.events[len(qr.events)-1].Event == "change" && forall(k, 0, old(len(qr.events)), qr.events[k].Event == old(qr.events[k].Event)))
+//@   ensures_on_panic none: same(qr.events, old(qr.events)) && qr.h.Type == TypeCollection
+//@ func (qr *queryRequest) AddEvent(v interface{}, idx int)
+//@   requires qr != nil
+//@   modifies res.queryRequest.events, alloc, elems:res.queryRequest.events
+//@   may_panic
+//@   ensures one: idx >= 0 && len(qr.events) == old(len(qr.events)) + 1 && qr.events[len(qr.events)-1].Event == "add" && forall(k, 0, old(len(qr.events)), qr.events[k].Event == old(qr.events[k].Event))
+//@   ensures_on_panic none: same(qr.events, old(qr.events)) && (qr.h.Type == TypeModel || idx < 0)
+//@ func (qr *queryRequest) RemoveEvent(idx int)
+//@   requires qr != nil
+//@   modifies res.queryRequest.events, alloc, elems:res.queryRequest.events
+//@   may_panic
+//@   ensures one: idx >= 0 && len(qr.events) == old(len(qr.events)) + 1 && qr.events[len(qr.events)-1].Event == "remove" && forall(k, 0, old(len(qr.events)), qr.events[k].Event == old(qr.events[k].Event))
+//@   ensures_on_panic none: same(qr.events, old(qr.events)) && (qr.h.Type == TypeModel || idx < 0)
 //@ func callback.queryCB(self ref, r iface)
 //@   requires typeIs(r, "*res.queryRequest") && qrOK(ptrOf(r, "*res.queryRequest")) && invQ(ptrOf(r, "*res.queryRequest"))
 //@   modifies all
@@ -1133,6 +1220,8 @@ package res
 //@   # the query event is announced, listened to and timed only when the subscription succeeded
 //@   ghost call Service.event#1 before :: assert subscribed: isNil(err) && subopen == old(subopen) + 1 && qnil == old(qnil)
 //@   ghost call Queue.Add#1 before :: assert subscribed: isNil(err) && qnil == old(qnil)
+//@   # the query event keeps the resource as it is: its callbacks are queued on the resource's group (C01), for the same name and handler
+//@   ghost call Queue.Add#1 before :: assert same.resource: same(qe.r.group, r.group) && same(qe.r.rname, r.rname) && qe.r.s == r.s && same(qe.r.h, r.h) && same(qe.r.pathParams, r.pathParams) && same(qe.r.query, r.query)
 //@   ensures failed.nil: imp(!isNil(err), qnil == old(qnil) + 1)
 //@   ensures ok: imp(isNil(err), subopen == old(subopen) + 1 && qnil == old(qnil) && tqadded == old(tqadded) + 1)
 //@   ensures never: qcalls == old(qcalls)
@@ -1443,6 +1532,7 @@ package res
 //@   ghost entry :: set tvn = 0
 //@   ghost entry :: set walk0 = nextRef()
 //@   ensures WF() && isnode == old(isnode) && nr == old(nr) && nlit == old(nlit) && pendm == old(pendm) && unchanged("res.Mux.root", "res.Mux.path", "res.Mux.parent", "res.Mux.mountp", "res.node.mounted") && nextRef() >= old(nextRef())
+//@   ensures settings: unchanged("res.Mux.s", "res.Service.workerCount", "res.Service.inChannelSize", "res.Service.Mux")
 //@ pred nohandler(x ref) = asptr(x, "*res.node").hs == nil && ref(asptr(x, "*res.node").listeners) != 0
 //@ func Mux.ValidateListeners$1(n *node, path []string, mountIdx int)
 //@   requires WF() && pendm == 0 && tvn >= 0 && walkOK(n, path, mountIdx) && m != nil
@@ -1513,6 +1603,31 @@ package res
 //@   modifies all
 //@   ensures muxOK(s.Mux)
 //@ ghostvar startcas bool
+//@ # ---- configuration: what serve requires of the sizes is established by the constructor and kept by the setters
+//@ trusted func logger.NewStdLogger() (l *logger.StdLogger)
+//@   modifies alloc
+//@   ensures l != nil
+//@ func (m *Mux) Register(s *Service)
+//@   requires muxOK(m)
+//@   modifies all
+//@   may_panic
+//@   ensures muxOK(m) && m.s == s && unchanged("res.Mux.root", "res.Mux.path", "res.Service.workerCount", "res.Service.inChannelSize", "res.Service.Mux")
+//@ func NewService(name string) (s *Service)
+//@   requires WF() && pendm == 0 && forallge(q, nextRef(), !isnode[q])
+//@   modifies all
+//@   may_panic
+//@   ensures sizes: s != nil && s.workerCount > 0 && s.inChannelSize > 0
+//@   ensures mux: muxOK(s.Mux) && same(s.Mux.path, name)
+//@ func (s *Service) SetWorkerCount(count int) (r *Service)
+//@   requires s != nil
+//@   modifies res.Service.workerCount
+//@   may_panic
+//@   ensures r == s && s.workerCount > 0 && imp(count > 0, s.workerCount == count)
+//@ func (s *Service) SetInChannelSize(size int) (r *Service)
+//@   requires s != nil
+//@   modifies res.Service.inChannelSize
+//@   may_panic
+//@   ensures r == s && s.inChannelSize > 0 && imp(size > 0, s.inChannelSize == size)
 //@ # ---- start: the state machine. A service that is not stopped refuses to start and stays in the state it is in (C03)
 //@ trusted func (nc *nats.Conn) SetReconnectHandler(cb nats.ConnHandler)
 //@   ensures true
